@@ -90,4 +90,6 @@ PoolP == <<"Ca", "Cab", "Caba">>
 Pool4 == <<"Ca", "Cb", "Cc", "Cd">>
 \* identifier spellings the name -> field conversions must agree on (trailing, leading, doubled underscore)
 PoolS == <<"Ca_", "_Cb", "C__c">>
+\* ... and on capitalisation patterns: acronym followed by a word, all capitals, digit boundaries
+PoolT == <<"UIState", "AABB", "Vec2D">>
 =============================================================================
